@@ -47,6 +47,8 @@ type m3Run struct {
 	sinks                        []*udpSink
 	constructedLo, constructedHi int64
 	callLo, callHi               map[string]int64 // per report id: wall clock just before the call / just after it returned
+	cid                          map[string]int   // report key (name#value) -> index of its call event (1-based, per execution)
+	tn                           map[string]int   // per thread: number of report calls made
 	metClosed                    bool
 	sinceSpin                    map[string]int
 	panics                       []string
@@ -107,6 +109,7 @@ func (r *m3Run) drain(commonWant map[string]string) {
 					rel := "ok"
 					r.mu.Lock()
 					hi, seen := r.callHi[id]
+					cid := r.cid[id]
 					r.mu.Unlock()
 					switch {
 					case m.Timestamp < r.constructedLo:
@@ -114,7 +117,7 @@ func (r *m3Run) drain(commonWant map[string]string) {
 					case seen && hi != 0 && m.Timestamp > hi:
 						rel = "after-return"
 					}
-					mets = append(mets, M{"name": m.Name, "kind": k, "v": v, "tags": tagPairs(m.Tags), "ts": rel})
+					mets = append(mets, M{"cid": cid, "name": m.Name, "kind": k, "v": v, "tags": tagPairs(m.Tags), "ts": rel})
 				}
 				ev["mets"] = mets
 			}
@@ -135,7 +138,7 @@ var m3Leaked bool
 var m3Common = map[string]string{"service": "svc", "env": "test", "dc": "x1"}
 
 func m3Execute(sc *m3Scenario, choose sched.Chooser) (ev []M, steps []sched.Step, stuck string) {
-	r := &m3Run{sc: sc, callLo: map[string]int64{}, callHi: map[string]int64{}, sinceSpin: map[string]int{}}
+	r := &m3Run{sc: sc, callLo: map[string]int64{}, callHi: map[string]int64{}, sinceSpin: map[string]int{}, cid: map[string]int{}, tn: map[string]int{}}
 	r.s = sched.New()
 	s := r.s
 	if sc.Points != nil {
@@ -253,8 +256,10 @@ func m3Execute(sc *m3Scenario, choose sched.Chooser) (ev []M, steps []sched.Step
 				want[k2] = v2
 			}
 		}
-		r.log(M{"e": "call", "t": t, "op": "report", "name": name, "kind": k, "v": vs, "tags": tmPairs(want), "bucket": kind == "bucket"})
 		r.mu.Lock()
+		r.tn[t]++
+		r.cid[id] = len(r.cid) + 1
+		r.ev = append(r.ev, M{"e": "call", "t": t, "op": "report", "cid": r.cid[id], "tn": r.tn[t], "name": name, "kind": k, "v": vs, "tags": tmPairs(want), "bucket": kind == "bucket"})
 		r.callLo[id] = time.Now().UnixNano()
 		r.mu.Unlock()
 		switch kind {
@@ -270,7 +275,10 @@ func m3Execute(sc *m3Scenario, choose sched.Chooser) (ev []M, steps []sched.Step
 		r.mu.Lock()
 		r.callHi[id] = time.Now().UnixNano()
 		r.mu.Unlock()
-		r.log(M{"e": "ret", "t": t, "op": "report", "name": name, "v": vs})
+		r.mu.Lock()
+		c := r.cid[id]
+		r.mu.Unlock()
+		r.log(M{"e": "ret", "t": t, "op": "report", "cid": c, "name": name, "v": vs})
 	}
 	kinds := []string{"counter", "gauge", "timer", "bucket"}
 	var sharedBucket tally.CachedHistogramBucket
@@ -500,6 +508,9 @@ func m3Scenarios(tier string) []m3Set {
 		{&m3Scenario{Name: "mix-4p-q4096-3dest", Producers: 4, NRep: 4, Flushers: 1, Closers: 1, QCap: 4096, Compact: true, Dests: 3}, "random", q(120)},
 		{&m3Scenario{Name: "small-packets", Producers: 4, NRep: 6, Flushers: 1, Closers: 1, QCap: 3, Compact: true, MaxPacket: 420}, "random", q(120)},
 		{&m3Scenario{Name: "same-bucket-2p", Producers: 2, NRep: 2, Closers: 1, QCap: 2, Compact: true, SameBucket: true}, "random", q(200)},
+		// two goroutines report through ONE bucket handle (what two overlapping report passes over a histogram do):
+		// every interleaving of "store the value in the handle" / "hand the metric to the reporter"
+		{&m3Scenario{Name: "same-bucket-dfs", Producers: 2, NRep: 1, QCap: 4, Compact: true, SameBucket: true, Points: []string{"m3b_set", "m3r_inc"}}, "dfs", q(400)},
 		{&m3Scenario{Name: "no-close-3p-f", Producers: 3, NRep: 2, Flushers: 1, QCap: 1, Compact: true}, "random", q(100)},
 	}
 }
